@@ -225,6 +225,26 @@ func errReaches(v ssa.Value, seen map[ssa.Value]bool) bool {
 				return errReaches(x, seen)
 			}
 		case *ssa.Store:
+			// parked in a field of a local struct (a `sticky error` helper whose methods were inlined here):
+			// it is propagated if that field of that very object is read again and the value read is
+			if fa, ok := x.Addr.(*ssa.FieldAddr); ok && x.Val == via {
+				if al, ok := fa.X.(*ssa.Alloc); ok && al.Referrers() != nil {
+					for _, r := range *al.Referrers() {
+						fb, ok := r.(*ssa.FieldAddr)
+						if !ok || fb.Field != fa.Field || fb.Referrers() == nil {
+							continue
+						}
+						for _, rr := range *fb.Referrers() {
+							if ld, ok := rr.(*ssa.UnOp); ok && ld.Op == token.MUL && !seen[ld] {
+								seen[ld] = true
+								if errReaches(ld, seen) {
+									return true
+								}
+							}
+						}
+					}
+				}
+			}
 			// variadic packing: err stored into the backing array of a slice passed to a call
 			if ia, ok := x.Addr.(*ssa.IndexAddr); ok {
 				if al, ok := ia.X.(*ssa.Alloc); ok {
@@ -312,7 +332,7 @@ func blockReturnsNonNilError(b *ssa.BasicBlock) bool {
 
 func init() {
 	register(&Rule{
-		ID: "C12.R1", Props: []string{"C12", "C07"}, Min: 20,
+		ID: "C12.R1", Props: []string{"C12", "C07"}, Min: 20, Local: true, // the flow of one call's error result inside one function, local helper structs included (errReaches)
 		Doc: "every call that receives the destination writer (Write, io.WriteString, io.Copy, WriteTo, Fprint*, or a module function handed the writer) propagates its error result to the enclosing function's error return, all the way up to the render entry",
 		Run: func(p *Prog, c *Ctx) {
 			d := p.destTaint()
